@@ -1,7 +1,7 @@
 /-
   Driver domain `pk`: PackManifest decision table (C19).
     pk run ver=<10|11> at=<empty|valid|invalid> cfg=<none|valid|invalid|emptytype> layers=<0|n>
-           subject=<0|1> created=<absent|valid|malformed> target=<ros-present|ros-absent|pusher>
+           subject=<0|1> created=<absent|valid|malformed|empty> target=<ros-present|ros-absent|pusher>
     pk mt s=<string>        media-type regex
 -/
 import OrasModel.Spec.Grammar
@@ -43,7 +43,9 @@ def step (toks : List String) : Option (String × String) :=
       let layersEmpty := (← kv rest "layers") == "0"
       let subject := (← kv rest "subject") == "1"
       let created ← match ← kv rest "created" with
-        | "absent" => some Created.absent | "valid" => some .valid | "malformed" => some .malformed | _ => none
+        | "absent" => some Created.absent | "valid" => some .valid | "malformed" => some .malformed
+        | "empty" => some .malformed  -- the key is present with the empty string: not an RFC 3339 time
+        | _ => none
       let (canCheck, present) ← match ← kv rest "target" with
         | "ros-present" => some (true, true) | "ros-absent" => some (true, false) | "pusher" => some (false, false)
         | _ => none
